@@ -504,7 +504,7 @@ def check_history(ctx, model, ops, paths=None, max_paths=400, tag='gen'):
     # --- the model tree of an accepted history is well-formed (C01_reachable_wf)
     if dump[4] != 1:
         viol('model-tree-not-wf', {'broken': 'C01.reachable_wf', 'tree': dump[3]}, 'wf', found_input=False)
-    # --- ... and its finder compiles (hypothesis compiles_ok of C01_find_spec_partial)
+    # --- ... and its finder compiles (C01_wf_compiles, executed)
     if dump[5] != 1:
         viol('model-finder-does-not-compile', {'broken': 'C01.compiles_ok', 'tree': dump[3]}, 'cok', found_input=False)
     # --- tie 2: translation validation of the generated finder
